@@ -36,6 +36,10 @@ STACK = {"unit": "stack", "rlimit": 60, "tiers": Q}
 def LOOKUPS(tag):
     return {"unit": "find_mapping", "functions": ["find_mapping", "may_be_stack"], "tags": [tag], "tiers": Q}
 
+# thread_list_stream::write proved for any number of threads / mappings (loop heads desugared by the extractor, ledger 3c)
+def TLIST(tag):
+    return {"unit": "thread_list", "functions": ["write", "get_thread_info_by_index"], "tags": [tag], "rlimit": 100, "tiers": Q}
+
 # ---------------------------------------------------------------------------
 # shared Kani groups
 # ---------------------------------------------------------------------------
@@ -188,7 +192,7 @@ PLAN["C16"] = {
     "twins": {"write_at": ["vk_write_at_u32_len5"]},
     "trusted": [
         "verus/prelude/vec_index.rs: semantics of `&mut vec[a..b]` (uninterpreted predicate + axiom for Range<usize>); its bounds check is an inserted assert",
-        "alloc_from_array / alloc_from_iter / write_string_to_location are external_body in Verus (enumerate(), encode_utf16 unsupported); their contracts are checked by Kani at tier B only",
+        "alloc_from_iter / write_string_to_location are external_body in Verus (generic iterator + enumerate(), encode_utf16 unsupported); their contracts are checked by Kani at tier B only. alloc_from_array IS proved (any length): its `for (idx, val) in array.iter().enumerate()` head is desugared by the extractor into the index loop it abbreviates (ledger 3c), the Kani harnesses stay as twins",
     ],
     "samples": ["Buffer::write_at ensures: len' == max(len, off+size); bytes outside [off, off+size) unchanged; Ok => bytes == ser(val)",
                 "MemoryArrayWriter::set_value_at requires index < array_size; ensures patched(old, new, pos + size*index, ser(val))",
@@ -230,9 +234,10 @@ PLAN["C06"] = {
     "explanation": "get_stack_info and fill_thread_stack proved verbatim: a captured stack starts on the page of the stack pointer "
                    "(or in the first plausible stack mapping above it), extends to the end of that mapping without a limit, is at most the "
                    "limit with one, and contains the stack pointer whenever the stack pointer lies in a readable stack-like mapping; "
-                   "which threads are limited is a bounded Kani obligation on thread_list_stream::write (thorough tier)",
+                   "which threads are limited is proved on thread_list_stream::write for any number of threads (unit thread_list: only list positions >= 20 and never "
+                   "the crash-context thread get the 2 KiB limit, every stack is captured for that thread's own stack pointer), and re-checked by a bounded Kani harness (thorough) and a live child",
     "verus": [dict(STACK, functions=["get_stack_info", "fill_thread_stack", "contains_address", "end_address"], tags=["C06"]),
-              {"unit": "find_mapping", "functions": ["find_mapping", "may_be_stack"], "tags": ["C06"], "tiers": Q}],
+              {"unit": "find_mapping", "functions": ["find_mapping", "may_be_stack"], "tags": ["C06"], "tiers": Q}, TLIST("C06")],
     "kani": [{"tiers": Q, "jobs": 4, "timeout": 900, "harnesses": K_FIND},
              {"tiers": T, "jobs": 3, "timeout": 3600, "mem_gb": 24, "harnesses": dict(K_TLS_CAP, **K_TLS)}],
     "native": [N_TLS],
@@ -249,9 +254,11 @@ PLAN["C07"] = {
     "explanation": "fill_thread_stack pushes exactly the non-empty stack descriptor whose bytes equal target memory (reader contract); "
                    "memory_list_stream::write serialises the recorded blocks verbatim, in order, with the count the size implies; "
                    "app_memory::write proved verbatim for any number of requests: one block per request, in order, each naming bytes appended by the call that equal target memory (reader contract); "
-                   "the instruction-pointer window is a bounded Kani obligation plus a native check on a live child",
+                   "thread_list_stream::write proved for any number of threads and mappings: every non-empty stack is listed and the window around the crash "
+                   "instruction pointer is [max(start, ip-128), min(end, ip+128)) of the FIRST mapping containing ip, holding the target's bytes (reader contract); "
+                   "the window is also a bounded Kani obligation (thorough) and a native check on a live child",
     "verus": [dict(STACK, functions=["fill_thread_stack", "memory_list_stream_write"], tags=["C07"]),
-              {"unit": "app_memory", "functions": ["app_memory_write"], "tags": ["C07"], "tiers": Q}, LOOKUPS("C07")],
+              {"unit": "app_memory", "functions": ["app_memory_write"], "tags": ["C07"], "tiers": Q}, LOOKUPS("C07"), TLIST("C07")],
     "kani": [{"tiers": Q, "jobs": 2, "timeout": 900, "harnesses": {
                  "vk_app_memory_two_regions": H("B", "app_memory::write", "2 requests, symbolic addresses, lengths 1..=3")}},
              {"tiers": T, "jobs": 2, "timeout": 3600, "mem_gb": 24, "harnesses": {"vk_tls_crash_context_thread": K_TLS["vk_tls_crash_context_thread"]}}],
@@ -259,7 +266,7 @@ PLAN["C07"] = {
     "native_files": [N_C07_LIVE],
     "twins": TWINS_STACK,
     "trusted": ["copy_from_process satisfies copy_ok (see C17)",
-                "alloc_from_array contract assumed in Verus, checked by Kani (C16 group)"],
+                "alloc_from_array: proved for any array length in the unit mem_writer (loop head desugared, ledger 3c)"],
     "samples": ["memory_list_stream::write ensures: size == 4 + 16*n; element i == ser(memory_blocks[i])"],
 }
 
@@ -285,8 +292,9 @@ PLAN["C05"] = {
     "level": "proof",
     "explanation": "exception_stream::write proved (Verus) to emit the supplied signal number/code/address, the blamed thread id and the remembered "
                    "context location; CrashContext::fill_cpu_context proved (Kani, complete) to copy every register; that the blamed thread's "
-                   "list entry uses that same context is a bounded Kani obligation on thread_list_stream::write",
-    "verus": [dict(STACK, functions=["exception_stream_write"], tags=["C05"])],
+                   "list entry uses the crash context's registers and that the remembered location is that entry's context blob is proved on "
+                   "thread_list_stream::write for any number of threads (unit thread_list) and re-checked by a bounded Kani harness (thorough)",
+    "verus": [dict(STACK, functions=["exception_stream_write"], tags=["C05"]), TLIST("C05")],
     "kani": [{"tiers": Q, "jobs": 2, "timeout": 1200, "harnesses": K_REGS_CRASH},
              {"tiers": T, "jobs": 2, "timeout": 3600, "mem_gb": 24, "harnesses": K_TLS}],
     "native_files": [{"name": "c05_blamed", "tiers": Q, "tests": {
@@ -298,9 +306,9 @@ PLAN["C05"] = {
 PLAN["C04"] = {
     "level": "proof",
     "explanation": "ThreadInfoX86::fill_cpu_context proved (Kani, complete) for all register contents; suspend_threads keeps exactly the attachable "
-                   "threads in order (bounded); the per-thread loop of thread_list_stream::write emits one record per retained thread with its own context "
-                   "(bounded, thorough); dump()/generate_dump() never read the target after resuming it (complete relative to stubs, thorough)",
-    "verus": [{"unit": "dump", "functions": ["dump"], "tags": ["C04"], "tiers": Q}],
+                   "threads in order (bounded); thread_list_stream::write proved (unit thread_list) for ANY number of threads: exactly one record per retained thread, in order, "
+                   "with that thread's id and a context blob holding the registers ptrace reports for that very thread (also bounded Kani, thorough); dump()/generate_dump() never read the target after resuming it (complete relative to stubs, thorough)",
+    "verus": [{"unit": "dump", "functions": ["dump"], "tags": ["C04"], "tiers": Q}, TLIST("C04")],
     "kani": [{"tiers": Q, "jobs": 3, "timeout": 1200, "harnesses": dict(K_REGS_THREAD, **K_SUSPEND_THREADS)},
              {"tiers": T, "jobs": 3, "timeout": 5400, "mem_gb": 20, "harnesses": dict(K_TLS, **K_GENERATE)},
              G_DUMP],
@@ -494,7 +502,7 @@ PLAN["C01"] = {
                    "thread_names_stream::write and app_memory::write by Kani (bounded); exactly 18 entries, each through write_to_file (Kani, thorough)",
     "verus": [dict(STACK, functions=["fill_thread_stack", "memory_list_stream_write", "exception_stream_write"], tags=["C01"]),
               {"unit": "dir_section", "functions": ["new", "dump_dir_entry", "write_to_file"], "tags": ["C01"], "tiers": Q},
-              {"unit": "app_memory", "functions": ["app_memory_write"], "tags": ["C01"], "tiers": Q}, LOOKUPS("C01"),
+              {"unit": "app_memory", "functions": ["app_memory_write"], "tags": ["C01"], "tiers": Q}, LOOKUPS("C01"), TLIST("C01"),
               {"unit": "mem_writer", "functions": None, "tags": ["C16"], "tiers": Q}],
     "kani": [{"tiers": Q, "jobs": 6, "timeout": 1500, "harnesses": dict(K_THREAD_NAMES, **dict(K_ARRAYS, **{"vk_app_memory_two_regions": H("B", "app_memory::write", "2 requests"),
                                                                                                               "vk_stream_types_distinct": H("C", "the 18 stream types generate_dump emits are pairwise distinct and non-zero")}))},
@@ -517,7 +525,7 @@ PLAN["C02"] = {
               {"unit": "maps_filter", "functions": ["is_interesting", "is_contained_in"], "tags": ["C02"], "tiers": Q},
               {"unit": "find_mapping", "functions": ["find_mapping", "find_mapping_no_bias", "may_be_stack"], "tags": ["C02"], "tiers": Q},
               {"unit": "stack_scan", "functions": ["stack_has_pointer_to_mapping"], "tags": ["C02"], "tiers": Q},
-              {"unit": "mem_writer", "functions": None, "tags": ["C02"], "tiers": Q}],
+              {"unit": "mem_writer", "functions": None, "tags": ["C02"], "tiers": Q}, TLIST("C02")],
     "kani": [{"tiers": Q, "jobs": 8, "timeout": 1200, "harnesses": dict(K_HAS_PTR, **dict(K_FIND, **{"vk_safe_to_open_table": H("B", "MappingInfo::is_mapped_file_safe_to_open", "5 concrete names")}))}],
     "native": [N_PD_TOTAL, N_TLS_C02,
                {"stem": "maps_reader", "filter": "bprime_so_version", "tiers": Q, "tests": {
@@ -575,7 +583,7 @@ LEVEL_TEXT = {
     "C13": "bounded: exhaustive over all maps of up to 3 lines of a 64-element per-line domain; not a proof for all map lengths",
     "C14": "bounded: eight hand-built images and 608 688 parses of corrupted variants; agreement with an independent parser on installed files is not decided",
     "C15": "bounded: every named/unnamed pattern of 2 threads with symbolic ids and concrete names (Kani); every list of <= 3 threads over 8 name shapes incl. non-BMP names (native)",
-    "C16": "unbounded proof for every Buffer/MemoryWriter/MemoryArrayWriter function Verus can read (all inputs, all buffer states); complete Kani proofs of the per-type size facts; bounded Kani checks (stated bounds) of alloc_from_array/alloc_from_iter/write_string_to_location",
+    "C16": "unbounded proof for every Buffer/MemoryWriter/MemoryArrayWriter function Verus can read (all inputs, all buffer states); complete Kani proofs of the per-type size facts; alloc_from_array proved for any array length (loop head desugared by the extractor, recorded in the evidence); bounded Kani checks (stated bounds) of alloc_from_iter/write_string_to_location",
     "C17": "bounded: destinations of 3, 8, 11, 17 bytes, every source alignment and every readable interval for the ptrace strategy (Kani); all three strategies on a live child around a mapping end, 6144 reads (native); strategy selection complete (Kani)",
     "C18": "complete proofs of two pure conversions, bounded-exhaustive check of auxv precedence; the content-equality clauses (kernel data) are not decidable here",
     "C19": "unbounded proof on the verbatim text of dump() that, for every incoming writer state, generate_dump receives the per-request state of a fresh writer and the configuration is unchanged; unbounded proofs that the two consumers emit only that state; the same obligation through the real callees by a complete Kani control-flow harness (thorough); native reuse histories incl. failed requests on live children",
